@@ -18,7 +18,7 @@ Record obs := { ob_ret : oret; ob_events : list oev;
                 ob_T : list N;                 (* outstanding ids in the snapshot *)
                 ob_H : list (N*N*N);           (* pending timeouts: id, armed_at, duration *)
                 ob_K : list N;                 (* marked ids *)
-                ob_same : bool }.              (* T, H and mechanism part of the snapshot equal to the previous call's *)
+                ob_same : bool }.              (* T, H, mechanism part of the snapshot, RTT estimator state and last-request instant equal to the previous call's *)
 Inductive mop := MSend (now id r method:N) (app:list attr) | MInd (method:N) (app:list attr) | MRecv (now:N) (decodable:bool) (m:msg) | MTmo (now:N).
 
 Record sent := { s_id : N; s_t0 : N; s_r : N; s_ntx : N }.
@@ -462,3 +462,8 @@ Definition monitor_step (c:mcfg) (cc:ccfg) (s:mall) (op:mop) (o:obs) : mall * li
    [(5, mon_C05 core core' o, 0); (6, mon_C06 c core op o, 0); (11, mon_C11 core' op o, 0); (12, mon_C12 c core op o, 0);
     (17, mon_C17 c core op o, 0); (3, match ob_ret o with OPanic => false | _ => true end, 0);
     (7, v07, 0); (8, v08 =? 0, v08); (10, mon_C10 cc op o, 0); (13, mon_C13 cc op o, 0); (15, v15, 0)]).
+
+(* C08, last clause: "the password never appears on the wire". The harness searches every emitted packet for the bytes of
+   the configured password (fact pwleak); the verdict is the negation. (At the abstract level no attribute of a prepared
+   request carries a password token other than inside a key descriptor: AgentMech.) *)
+Definition mon_C08_secret (leak:bool) : bool := negb leak.
